@@ -142,6 +142,12 @@ struct inst
     {
       bf t = A; t ^= B; observe(t, a ^ b, "operator^=", false);
     }
+    {
+      // the right operand is the object itself
+      bf t1 = A; t1 |= t1; observe(t1, a, "a|=a", false);
+      bf t2 = A; t2 &= t2; observe(t2, a, "a&=a", false);
+      bf t3 = A; t3 ^= t3; observe(t3, 0, "a^=a", false);
+    }
     if ((A == B) != (a == b) || (A != B) != (a != b))
       fail("bitfield|comparison|value", "== / != of " + show(a) + " and " + show(b) + " wrong");
     if (fcppt::container::bitfield::is_subset_eq(A, B) != ((a & ~b) == 0))
